@@ -361,8 +361,8 @@ func diffObj(mo *mObj, o *redisemu.SimObj) string {
 		if mo.Float {
 			f1, e1 := strconv.ParseFloat(mo.S, 64)
 			f2, e2 := strconv.ParseFloat(string(o.Str), 64)
-			if e1 != nil || e2 != nil || !floatNear(f1, f2) {
-				return fmt.Sprintf("value is %q, expected number %s", clipS(string(o.Str), 60), mo.S)
+			if e1 != nil || e2 != nil || !floatNear(f1, f2) || expNotation(string(o.Str)) {
+				return fmt.Sprintf("value is %q, expected number %s (fixed notation)", clipS(string(o.Str), 60), clipS(mo.S, 60))
 			}
 			// the digits the implementation chose are adopted: commands that work on
 			// the bytes of the value (ranges, bits) are exact from here on
@@ -392,8 +392,8 @@ func diffObj(mo *mObj, o *redisemu.SimObj) string {
 			if mo.HF[f] {
 				f1, _ := strconv.ParseFloat(v, 64)
 				f2, e2 := strconv.ParseFloat(ov, 64)
-				if e2 != nil || !floatNear(f1, f2) {
-					return fmt.Sprintf("hash field %q is %q, expected number %s", f, ov, v)
+				if e2 != nil || !floatNear(f1, f2) || expNotation(ov) {
+					return fmt.Sprintf("hash field %q is %q, expected number %s (fixed notation)", f, clipS(ov, 60), clipS(v, 60))
 				}
 			} else if ov != v {
 				return fmt.Sprintf("hash field %q is %q, expected %q", f, clipS(ov, 40), clipS(v, 40))
